@@ -18,12 +18,13 @@ import queue
 VERIF = os.path.dirname(os.path.dirname(os.path.abspath(__file__)))
 REPO = os.environ.get("VERIF_REPO", "/repo")
 ALL = ["C%02d" % i for i in range(1, 21) if i != 13]
+DIR = "seeded"
 SLOTS = queue.Queue()
 
 
 def run_seed(args):
     sid, props = args
-    d = os.path.join(VERIF, "seeded", sid)
+    d = os.path.join(VERIF, DIR, sid)
     patch = os.path.join(d, "patch.diff")
     meta = {}
     try:
@@ -68,8 +69,11 @@ def main():
     ap.add_argument("--props", default="")
     ap.add_argument("--jobs", type=int, default=4)
     ap.add_argument("--own", action="store_true", help="only run the check of the property the seed breaks")
+    ap.add_argument("--dir", default="seeded", help="seeded (must fire) or refactors (behaviour-preserving: must stay silent)")
     a = ap.parse_args()
-    sd = os.path.join(VERIF, "seeded")
+    global DIR
+    DIR = a.dir
+    sd = os.path.join(VERIF, a.dir)
     seeds = a.seeds or sorted(x for x in os.listdir(sd) if os.path.isdir(os.path.join(sd, x)))
     for i in range(a.jobs):
         SLOTS.put(i)
